@@ -13,4 +13,5 @@ func main() {
 	Header(repo)
 	antefacts.Emit(repo)
 	emitApplyNonce(repo)
+	emitTxPrices(repo)
 }
